@@ -21,6 +21,7 @@ func init() {
 		default:
 			cfg.MkFSFrom = fsad.ComposeFrom(kind)
 			cfg.GateOnly = true
+			cfg.InvalidOnly = kind == "tarcut"
 		}
 		return &fsad.Adapter{Cfg: cfg}
 	}
